@@ -363,6 +363,11 @@ func (rb *Buffer) ReadFrom(r io.Reader) (n int64, err error) {
 			if err != nil {
 				return
 			}
+			if rb.w != 0 {
+				// The reader didn't fill up the upper segment, it's not the time
+				// to write to the lower segment yet.
+				continue
+			}
 			m, err = r.Read(rb.buf[:rb.r])
 			if m < 0 {
 				panic("RingBuffer.ReadFrom: reader returned negative count from Read")
